@@ -210,7 +210,12 @@ def gen_json_texts(ctx):
            '"\\ud83d\\ud83d\\ude00"', '"\\/"', '"\x01"', '"\x1f"', '"\x7f"', '"\t"', '"\u00e9"', '"\U0001F600"',
            '\ufeff{}', '[[[[[[[[[[1]]]]]]]]]]', '{"a":{"b":{"c":[{"d":null}]}}}', '[1]x', 'x[1]', '[1]\n', '\n[1]',
            '\x0b[1]', '[1]\x0c', '[\n1\t,\r2 ]', '{"a"\n:\n1}', '"a" "b"', '[true,false,null]', '[truefalse]',
-           '-[1]', '[-]', '[+1]', '+1', '0x10', '1_0', '٣', '[1,2,3,4,5,6,7,8,9,10,11,12]']
+           '-[1]', '[-]', '[+1]', '+1', '0x10', '1_0', '٣', '[1,2,3,4,5,6,7,8,9,10,11,12]',
+           # the number grammar: integer part followed by things that are NOT a fraction / exponent
+           '1e', '1E', '1e+', '1E-', '1.', '1.e5', '1.x', '-1e', '-0.', '0e', '[1e]', '[1.]', '{"a":1e}', '1e+x', '1ee5', '1e 5',
+           '1 e5', '12.', '10e', '-', '--1', '-x', '1-', '1+', '0.', '00', '-00', '0 ', '1,', '[0e]', '[1,2e]', '1.5e',
+           # and things that are (floats: outside the modelled fragment, skipped when Python accepts them)
+           '1e5', '1E+5', '1e-5', '1.5', '-0.0', '0e0', '[1.5]', '1.5e3', '1.5e+', '1.5e+3']
     docs = [v for v in gen_json_values(ctx)[:ctx.scale(150, 1500)]]
     for v in docs:
         try:
